@@ -119,6 +119,52 @@ fn c03_patch_jump_table() {
     }
 }
 
+
+/// Emit -> decode round trip through the REAL emitter and the REAL instruction decoder
+/// (`BytecodeEmitter::emit_*`, `patch_jump`, `Bytecode::next_instruction`, `InstructionIterator`): a body made of
+/// Move, JumpIfTrue (patched to the end), Call, Jump (patched to the Call) decodes to exactly these
+/// instructions with these operands, every instruction starts where the previous one ended, the iterator
+/// stops exactly at the end of the body, and both jump targets are starts of instructions inside it.
+// BOUND: one fixed 4-instruction body shape (operands symbolic)
+// FN: BytecodeEmitter::emit_move, BytecodeEmitter::emit_jump_if_true, BytecodeEmitter::emit_call, BytecodeEmitter::emit_jump, BytecodeEmitter::patch_jump, BytecodeEmitter::next_opcode_location, BytecodeEmitter::into_bytecode, Bytecode::next_instruction, InstructionIterator::next
+// ALSO: C02
+#[kani::proof]
+#[kani::unwind(30)]
+fn c03_emit_decode_roundtrip_with_jumps() {
+    let (d, s, c, argc): (u32, u32, u32, u32) = (kani::any(), kani::any(), kani::any(), kani::any());
+    let mut e = BytecodeEmitter::new();
+    let pc0 = e.next_opcode_location();
+    e.emit_move(RegisterOperand::new(d), RegisterOperand::new(s));
+    let pc1 = e.next_opcode_location();
+    e.emit_jump_if_true(Address::new(u32::MAX), RegisterOperand::new(c));
+    let pc2 = e.next_opcode_location();
+    e.emit_call(IndexOperand::from(argc));
+    let pc3 = e.next_opcode_location();
+    e.emit_jump(Address::new(u32::MAX));
+    let end = e.next_opcode_location();
+    e.patch_jump(pc1, end);
+    e.patch_jump(pc3, pc2);
+    kani::cover!(true);
+    assert!(u32::from(pc0) == 0);
+    let code = e.into_bytecode();
+    assert!(code.bytes.len() == u32::from(end) as usize);
+    let mut it = InstructionIterator::new(&code);
+    let Some((p, op, ins)) = it.next() else { panic!("body ends early") };
+    assert!(p == 0 && op == Opcode::Move);
+    assert!(matches!(ins, Instruction::Move { dst, src } if u32::from(dst) == d && u32::from(src) == s));
+    let Some((p, op, ins)) = it.next() else { panic!("body ends early") };
+    assert!(p == u32::from(pc1) as usize && op == Opcode::JumpIfTrue);
+    assert!(matches!(ins, Instruction::JumpIfTrue { address, value } if address == end && u32::from(value) == c));
+    let Some((p, op, ins)) = it.next() else { panic!("body ends early") };
+    assert!(p == u32::from(pc2) as usize && op == Opcode::Call);
+    assert!(matches!(ins, Instruction::Call { argument_count } if u32::from(argument_count) == argc));
+    let Some((p, op, ins)) = it.next() else { panic!("body ends early") };
+    assert!(p == u32::from(pc3) as usize && op == Opcode::Jump);
+    // the backward jump lands on the start of the Call instruction
+    assert!(matches!(ins, Instruction::Jump { address } if address == pc2));
+    assert!(it.next().is_none());
+}
+
 #[kani::proof]
 #[kani::unwind(14)]
 fn c03_opcode_canary_must_fail() {
